@@ -5,8 +5,11 @@
     A case carries a linear call sequence with the observed results and/or a
     complete ternary call tree (every pattern over HasNext/Next/Reset up to a
     depth) whose observed results are packed, one hex digit per node in
-    pre-order, into one number. *)
-From Coq Require Import List ZArith Bool NArith.
+    pre-order, 15 digits per primitive 63-bit integer (first digit = least
+    significant; primitive integers only because their literals are an order
+    of magnitude cheaper to read than [N] literals - nothing is proved about
+    them, they are only unpacked here). *)
+From Coq Require Import List ZArith Bool NArith Uint63.
 From GL Require Import model.Mixer spec.Merge.
 Import ListNotations.
 Open Scope Z_scope.
@@ -26,8 +29,9 @@ Definition sP (c : call) : step := (c, OPanic).
 
 Record case := mkCase {
   c_id : N; c_sel : sel; c_s1 : srcd; c_s2 : srcd;
+  c_exact : bool;               (* also compare what lies outside the property's premises *)
   c_steps : list step;          (* linear pattern with observed results *)
-  c_depth : nat; c_tree : N     (* call tree: depth (0 = none) and packed results *)
+  c_depth : nat; c_tree : list int   (* call tree: depth (0 = none) and packed results *)
 }.
 
 (** * Comparison of observables *)
@@ -58,15 +62,29 @@ Definition out_code (o : out) : N :=
   | OPanic => 14%N
   end.
 
-Definition honest (s : srcd) : bool := forallb snd (sd_items s).
-
 Definition to_src (s : srcd) : src := src_of (sd_items s) (sd_rst s).
 
-(* the specification speaks about honest inputs, and about Reset only when both
-   inputs can be reset: [None] = not applicable (any more) *)
+(** What is compared.
+
+    Within the premises of the property - list-backed sources whose Next is ok
+    whenever HasNext was true, except possibly for a vanished last element (the
+    imparity iterator.go describes), and Reset only while both sources can be
+    reset - every result is compared with the model and with the specification
+    (proved equal there, [mixer_refines_merge_general]).
+
+    Outside them the code's behaviour is not something the property (or the
+    documentation) fixes: a Reset that fails because a source is no Reseter
+    must fail ([Reset] documents an error), but what the mixer returns
+    afterwards, and what it does with a source whose Next fails in the middle,
+    is only compared when the case asks for it ([c_exact], harness flag
+    --exact): then every result must be exactly the model's. *)
+
+Definition in_premises (c : case) : bool :=
+  tail_ok (sd_items (c_s1 c)) && tail_ok (sd_items (c_s2 c)).
+
 Definition spec_start (c : case) : option mspec :=
-  if honest (c_s1 c) && honest (c_s2 c)
-  then Some (spec_init (map fst (sd_items (c_s1 c))) (map fst (sd_items (c_s2 c))))
+  if in_premises c
+  then Some (spec_init (live_items (sd_items (c_s1 c))) (live_items (sd_items (c_s2 c))))
   else None.
 
 Definition both_rst (c : case) : bool := sd_rst (c_s1 c) && sd_rst (c_s2 c).
@@ -85,32 +103,67 @@ Definition spec_do (sf : Z -> Z -> bool) (br : bool) (s : option mspec) (cl : ca
 Definition spec_agrees (r : option (mspec * out)) (o : out) : bool :=
   match r with None => true | Some (_, so) => out_eqb so o end.
 
-Fixpoint check_steps (sf : Z -> Z -> bool) (br : bool) (m : mixer) (s : option mspec)
+Definition failed_reset (o : out) : bool :=
+  match o with OReset ROk => false | OReset _ => true | _ => false end.
+
+Fixpoint check_steps (sf : Z -> Z -> bool) (br ex : bool) (m : mixer) (s : option mspec)
                      (l : list step) : bool :=
   match l with
   | [] => true
   | (cl, o) :: t =>
       let '(m', mo) := mx_step sf m cl in
       let r := spec_do sf br s cl in
-      out_eqb mo o && spec_agrees r o && check_steps sf br m' (option_map fst r) t
+      if negb ex && failed_reset mo then failed_reset o   (* nothing is compared after it *)
+      else out_eqb mo o && spec_agrees r o && check_steps sf br ex m' (option_map fst r) t
   end.
+
+(* number of nodes of the complete call tree of depth [d] *)
+Fixpoint tree_size (d : nat) : nat :=
+  match d with O => O | S d' => (3 * (1 + tree_size d'))%nat end.
+
+(* the packed digits: current chunk, digits left in it, further chunks *)
+Record digits := mkDg { dg_cur : int; dg_left : nat; dg_rest : list int }.
+
+Definition digits_of (l : list int) : digits := mkDg 0%uint63 O l.
+
+Definition next_digit (s : digits) : int * digits :=
+  match dg_left s with
+  | S k => ((dg_cur s land 15)%uint63, mkDg (dg_cur s >> 4)%uint63 k (dg_rest s))
+  | O =>
+      match dg_rest s with
+      | [] => (0%uint63, s)
+      | c :: t => ((c land 15)%uint63, mkDg (c >> 4)%uint63 14 t)
+      end
+  end.
+
+(* [out_code] as a primitive integer (the codes are < 16) *)
+Definition out_digit (o : out) : int := Uint63.of_Z (Z.of_N (out_code o)).
+
+Definition digit_N (d : int) : N := Z.to_N (Uint63.to_Z d).
+
+Definition is_failure_digit (d : int) : bool := ((1 <=? d) && (d <=? 3))%uint63.
+
+Fixpoint skip_digits (n : nat) (s : digits) : digits :=
+  match n with O => s | S n' => skip_digits n' (snd (next_digit s)) end.
 
 (* pre-order walk over the complete call tree of depth [d]; consumes one digit
    of [code] per node; (all equal so far, remaining digits) *)
-Fixpoint walk (d : nat) (sf : Z -> Z -> bool) (br : bool) (m : mixer) (s : option mspec)
-              (code : N) : bool * N :=
+Fixpoint walk (d : nat) (sf : Z -> Z -> bool) (br ex : bool) (m : mixer) (s : option mspec)
+              (code : digits) : bool * digits :=
   match d with
   | O => (true, code)
   | S d' =>
-      let visit (cl : call) (acc : bool * N) : bool * N :=
+      let visit (cl : call) (acc : bool * digits) : bool * digits :=
         let '(good, code) := acc in
         if good then
           let '(m', mo) := mx_step sf m cl in
           let r := spec_do sf br s cl in
-          let dg := N.land code 15 in
-          if N.eqb (out_code mo) dg &&
-             match r with None => true | Some (_, so) => N.eqb (out_code so) dg end
-          then walk d' sf br m' (option_map fst r) (N.shiftr code 4)
+          let '(dg, code') := next_digit code in
+          if negb ex && failed_reset mo then
+            (is_failure_digit dg, skip_digits (tree_size d') code')
+          else if Uint63.eqb (out_digit mo) dg &&
+                  match r with None => true | Some (_, so) => Uint63.eqb (out_digit so) dg end
+          then walk d' sf br ex m' (option_map fst r) code'
           else (false, code)
         else acc in
       visit CReset (visit CNext (visit CHasNext (true, code)))
@@ -119,8 +172,10 @@ Fixpoint walk (d : nat) (sf : Z -> Z -> bool) (br : bool) (m : mixer) (s : optio
 Definition check_case (c : case) : bool :=
   let sf := sel_fn (c_sel c) in
   let m := mx_init (to_src (c_s1 c)) (to_src (c_s2 c)) in
-  check_steps sf (both_rst c) m (spec_start c) (c_steps c)
-  && fst (walk (c_depth c) sf (both_rst c) m (spec_start c) (c_tree c)).
+  if negb (c_exact c) && negb (in_premises c) then true
+  else
+    check_steps sf (both_rst c) (c_exact c) m (spec_start c) (c_steps c)
+    && fst (walk (c_depth c) sf (both_rst c) (c_exact c) m (spec_start c) (digits_of (c_tree c))).
 
 Definition mismatches (cs : list case) : list N :=
   map c_id (filter (fun c => negb (check_case c)) cs).
@@ -139,23 +194,27 @@ Fixpoint explain_steps (sf : Z -> Z -> bool) (br : bool) (m : mixer) (s : option
 
 (* the nodes of the tree where implementation and model/spec differ:
    (path to the node, observed digit, model result, spec result) *)
-Fixpoint explain_walk (d : nat) (sf : Z -> Z -> bool) (br : bool) (m : mixer) (s : option mspec)
-                      (path : list call) (code : N)
-  : list (list call * N * out * option out) * N :=
+Fixpoint explain_walk (d : nat) (sf : Z -> Z -> bool) (br ex : bool) (m : mixer) (s : option mspec)
+                      (path : list call) (code : digits)
+  : list (list call * N * out * option out) * digits :=
   match d with
   | O => ([], code)
   | S d' =>
-      let visit (cl : call) (acc : list (list call * N * out * option out) * N) :=
+      let visit (cl : call) (acc : list (list call * N * out * option out) * digits) :=
         let '(found, code) := acc in
         let '(m', mo) := mx_step sf m cl in
         let r := spec_do sf br s cl in
-        let dg := N.land code 15 in
-        let here :=
-          if N.eqb (out_code mo) dg &&
-             match r with None => true | Some (_, so) => N.eqb (out_code so) dg end
-          then [] else [(path ++ [cl], dg, mo, option_map snd r)] in
-        let '(sub, code') := explain_walk d' sf br m' (option_map fst r) (path ++ [cl]) (N.shiftr code 4) in
-        (found ++ here ++ sub, code') in
+        let '(dg, code') := next_digit code in
+        if negb ex && failed_reset mo then
+          (found ++ (if is_failure_digit dg then [] else [(path ++ [cl], digit_N dg, mo, None)]),
+           skip_digits (tree_size d') code')
+        else
+          let here :=
+            if Uint63.eqb (out_digit mo) dg &&
+               match r with None => true | Some (_, so) => Uint63.eqb (out_digit so) dg end
+            then [] else [(path ++ [cl], digit_N dg, mo, option_map snd r)] in
+          let '(sub, code'') := explain_walk d' sf br ex m' (option_map fst r) (path ++ [cl]) code' in
+          (found ++ here ++ sub, code'') in
       visit CReset (visit CNext (visit CHasNext ([], code)))
   end.
 
@@ -163,4 +222,4 @@ Definition explain (c : case) :=
   let sf := sel_fn (c_sel c) in
   let m := mx_init (to_src (c_s1 c)) (to_src (c_s2 c)) in
   (explain_steps sf (both_rst c) m (spec_start c) (c_steps c),
-   firstn 5 (fst (explain_walk (c_depth c) sf (both_rst c) m (spec_start c) [] (c_tree c)))).
+   firstn 5 (fst (explain_walk (c_depth c) sf (both_rst c) (c_exact c) m (spec_start c) [] (digits_of (c_tree c))))).
